@@ -5,7 +5,7 @@ use std::time::Instant;
 //@@ include prelude/time.rs
 //@@ include prelude/vecdeque.rs
 verus! {
-broadcast use {group_byte_keys, vstd::std_specs::hash::group_hash_axioms};
+broadcast use {group_byte_keys, group_vecdeque, vstd::std_specs::hash::group_hash_axioms};
 pub type DatabaseIndex = usize;
 //@@ item src/network/connection.rs BlockingOp
 //@@ item src/network/blocking.rs BlockedClient
